@@ -13,7 +13,7 @@ type step func(g *Gen) (Op, string, bool)
 
 // Scenarios lists the available scripts (index 0 = none).
 var Scenarios = []string{"", "connect", "silence", "restart_same_creds", "restart_disconnected", "fail_restart",
-	"late_response", "two_transports", "multi_pair", "prflx_supersede", "zero_failed_timeout", "foreign_indication", "neighbour_port"}
+	"late_response", "two_transports", "multi_pair", "prflx_supersede", "zero_failed_timeout", "foreign_indication", "neighbour_port", "stale_deferred"}
 
 func (g *Gen) sAL(i int) step {
 	return func(g *Gen) (Op, string, bool) {
@@ -132,6 +132,19 @@ func sPeerReqFrom(li int, src Addr, use bool) step {
 	}
 }
 
+// a well-formed nominating check arriving on a socket the agent may have released (in flight when it failed)
+func sPeerReqOldSocket(idx int, src Addr) step {
+	return func(g *Gen) (Op, string, bool) {
+		if idx >= len(g.everLocals) {
+			return Op{}, "", false
+		}
+		g.nextPeerTx++
+		m := Msg{Class: 0, Method: 1, Tx: g.nextPeerTx, HasUser: true, UserA: g.LU, UserB: g.RU, HasKey: true, Key: g.LP,
+			HasCtl: true, Ctl: !g.Ctl, TB: g.R.Uint64(), HasPrio: true, Prio: uint32(1 + g.R.Intn(1<<30)), Use: !g.Ctl}
+		return Op{Kind: "IS", LH: g.everLocals[idx].H, Src: src, Msg: m}, "req_on_released_socket", true
+	}
+}
+
 func sData(li, ri int) step {
 	return func(g *Gen) (Op, string, bool) {
 		if li >= len(g.locals) || ri >= len(g.remotes) {
@@ -229,7 +242,9 @@ func (g *Gen) Plan(name string, ctl bool) {
 		g.script = connect(g.pick(2), g.pick(2))
 	case "silence", "zero_failed_timeout":
 		g.script = connect(0, 0)
-		g.script = append(g.script, sAdvance(disc), sTick, sTick, sAdvance(Grid), sTick, sAdvance(failed), sTick, sTick, sAdvance(disc+failed), sTick, sTick)
+		g.script = append(g.script, sAdvance(disc), sTick, sTick, sAdvance(Grid), sTick, sAdvance(failed), sTick, sTick, sAdvance(disc+failed), sTick, sTick,
+			// (possibly) Failed by now: a late trickled candidate, a check that was in flight, then a tick
+			g.sAR(1), sPeerReqOldSocket(0, unknownSrc[0]), sPeerReqOldSocket(0, remotePool[0].Addr), sTick)
 	case "restart_same_creds":
 		g.script = []step{g.sAL(0), g.sAR(0), sStart(ctl), sTick, sTick, sRestart, g.sAL(0), sSameRemoteCreds, g.sAR(0),
 			sOldGenerationAnswer, sOldGenerationAnswer, sTick, sAnswer(true)}
@@ -237,7 +252,7 @@ func (g *Gen) Plan(name string, ctl bool) {
 		g.script = connect(0, 0)
 		g.script = append(g.script, sAdvance(disc), sTick, sTick, sRestart, sTick, sAdvance(Grid), sTick, sAdvance(300*Grid), sTick, sTick)
 	case "fail_restart":
-		g.script = []step{g.sAL(0), sStart(ctl), sTick, sAdvance(300 * Grid), sTick, sTick, sRestart, sTick, sAdvance(Grid), sTick, sAdvance(10 * Grid), sTick}
+		g.script = []step{g.sAL(0), sStart(ctl), sTick, sAdvance(300 * Grid), sTick, sTick, g.sAR(0), sPeerReqOldSocket(0, unknownSrc[1]), sRestart, sTick, sAdvance(Grid), sTick, sAdvance(10 * Grid), sTick}
 	case "late_response":
 		g.script = []step{g.sAL(0), g.sAR(0), sStart(ctl), sTick, sAdvance(40 * Grid), sAnswer(true), sTick, sAdvance(50 * Grid), sAnswer(false)}
 	case "two_transports":
@@ -248,6 +263,11 @@ func (g *Gen) Plan(name string, ctl bool) {
 		// two remotes; the first pair validated and nominated, then nominations on the second before it is valid
 		g.script = []step{g.sAL(0), g.sAR(0), g.sAR(1), sStart(ctl), sTick, sTick, sAnswerTo(0), sPeerReq(0, 0, true, 1),
 			sPeerReq(0, 1, true, 1), sPeerReq(0, 0, true, 1), sPeerReq(0, 1, true, 1), sTick, sAnswerTo(1), sAnswerTo(1), sTick, sAnswerTo(1)}
+	case "stale_deferred":
+		// a renomination deferred on a pair that is not valid yet, overtaken by a newer one on a valid pair;
+		// when the first pair becomes valid its stale value must not move the selection
+		g.script = []step{g.sAL(0), g.sAR(0), g.sAR(1), sStart(ctl), sTick, sTick, sAnswerTo(0), sPeerReq(0, 0, true, 1),
+			sPeerReq(0, 1, true, 1), sPeerReq(0, 0, true, 1), sTick, sAnswerTo(1), sAnswerTo(1), sTick, sAnswerTo(1)}
 	case "prflx_supersede":
 		g.script = []step{g.sAL(0), sStart(ctl), sPeerReqFrom(0, unknownSrc[1], true), g.sAR(12), sAnswer(true), sWriteToPair, sTick, sAnswer(true), sWriteToPair}
 	case "neighbour_port":
